@@ -945,6 +945,19 @@ class Interp:
                 raise Unsupported('keyword call of callback')
             r = fn.apply(args)
             self.calls.append((fn.name, tuple(args), r))
+            if not self.spec and getattr(self, 'callback_exc', None):
+                # a callback (lambda operand) may raise - in particular any
+                # exception the function under verification is prepared to
+                # CATCH somewhere: a handler must not take an operand's
+                # error for one of the function's own
+                for exc_name in sorted(self.callback_exc):
+                    flag = z3.Bool(S.fresh_name('operand_raises_' + exc_name))
+                    if self.branch(flag):
+                        cls = self.world.class_by_name(exc_name, None)
+                        ev = ExcVal(cls, ('raised by operand %s' % fn.name,),
+                                    getattr(node, 'lineno', None))
+                        ev.from_callback = True
+                        raise RaiseSig(ev)
             if not self.spec:
                 self.ncalls[fn.name] = z3.simplify(self.ncalls.get(
                     fn.name, z3.IntVal(0)) + 1)
@@ -1174,6 +1187,14 @@ class Interp:
         elif isinstance(t, ast.Subscript):
             obj = self.eval(t.value, fr)
             if isinstance(t.slice, ast.Slice):
+                lo = self.eval(t.slice.lower, fr) if t.slice.lower else None
+                hi = self.eval(t.slice.upper, fr) if t.slice.upper else None
+                if isinstance(obj, list) and t.slice.step is None and \
+                        not S.is_sym(lo) and not S.is_sym(hi):
+                    # a concrete list with concrete bounds: Python's own
+                    # slice assignment
+                    obj[lo:hi] = self.concrete_items(v)
+                    return
                 raise Unsupported('slice assignment')
             idx = self.eval(t.slice, fr)
             self.setitem(obj, idx, v, t)
